@@ -190,7 +190,9 @@ def check_wb(ctx, cfg):
                 i = z3.BitVec(f"qi{midx}", sv.aw)
                 quiet.append(frames[-1].state[midx][i] == f0.state[midx][i])
     ctx.prove("unselected_silent", z3.And(*quiet), held + [z3.Not(any_win)], frames=frames, mem_replay=mem_replay)
-    ctx.sat("some-address-is-unselected", z3.And(*held, z3.Not(any_win)))
+    covered = sum(hi - lo for lo, hi in wins.values())
+    if has_adr and covered < (1 << mm.addr_width):          # otherwise every address selects somebody: nothing to cover
+        ctx.sat("some-address-is-unselected", z3.And(*held, z3.Not(any_win)))
     # --- the literal reading of "unassigned addresses are never acknowledged" (known finding when a bridge window has holes)
     assigned = z3.Or(*[z3.And(z3.UGE(a0 + z3.BitVecVal(ratio - 1, W), z3.BitVecVal(i.start, W)), z3.ULT(a0, z3.BitVecVal(i.end, W)))
                        for i in infos]) if infos else z3.BoolVal(False)
